@@ -28,13 +28,30 @@ VIEW_OPS = {
     "moveaxis": ("mg.moveaxis({s}, 0, -1)", lambda a: np.moveaxis(a, 0, -1)),
     "expand": ("mg.expand_dims({s}, 0)", lambda a: np.expand_dims(a, 0)),
     "ellipsis": ("{s}[...]", lambda a: a[...]),
+    # back to the axis order the memory was written in, then merged axes: a view only if the gradient has the data's layout
+    "permreshape": ("{s}.transpose(1, 2, 0).reshape(-1, 3)", lambda a: a.transpose(1, 2, 0).reshape(-1, 3)),
 }
+
+
+def _zeros(shape, fo):
+    """a base array: C-ordered, the transpose of a C-ordered array (fo is True), or - fo == "perm" - a 3-d array whose axes were
+    permuted (neither C- nor F-ordered)"""
+    if fo == "perm":
+        return np.zeros((shape[1], shape[2], shape[0])).transpose(2, 0, 1)
+    return np.zeros(shape[::-1]).T if fo else np.zeros(shape)
+
+
+def _symbase(shape, fo):
+    if fo == "perm":
+        return symarr("b", (shape[1], shape[2], shape[0])).transpose(2, 0, 1)
+    return symarr("b", shape[::-1]).T if fo else symarr("b", shape)
+PERM_BASES = {"perm3": (3, 2, 2)}
 BASES = {"flat6": (6,), "mat23": (2, 3), "sq33": (3, 3), "mat23F": (2, 3), "mat32F": (3, 2), "cube": (2, 1, 3), "cubeF": (2, 1, 3)}
 F_ORDERED = {"mat23F", "mat32F", "cubeF"}  # the base owns non C-ordered memory
 
 
 def _chain_ok(shape, chain, fo=False):
-    a = np.zeros(shape[::-1]).T if fo else np.zeros(shape)
+    a = _zeros(shape, fo)
     try:
         for op in chain:
             b = VIEW_OPS[op][1](a)
@@ -78,6 +95,12 @@ def cases(tier):
             ch = ch[::3]
         for i in range(0, len(ch), 10):
             out.append({"name": "%s/terminal/%d" % (base, i), "base": base, "terminal": ch[i:i + 10]})
+    # a 3-d base whose axes were permuted (neither C- nor F-ordered); the first gradient contribution comes from a product with a weight
+    # of yet another axis order, or from the views
+    chains = [c for n in (1, 2) for c in itertools.product(list(VIEW_OPS), repeat=n) if "permreshape" in c and _chain_ok((3, 2, 2), c, "perm")]
+    chains += [c for c in itertools.product(["slice", "rev", "T", "swap", "moveaxis", "int", "ellipsis"], repeat=1) if _chain_ok((3, 2, 2), c, "perm")]
+    for i in range(0, len(chains), 6):
+        out.append({"name": "perm3/%d" % i, "base": "perm3", "chains": [list(c) for c in chains[i:i + 6]], "wperm": True})
     return out
 
 
@@ -98,11 +121,13 @@ def consumer_sets(nviews, quick):
 def run_case(spec, tier):
     mg = common._WORKER["mg"]
     res = common.new_result()
-    shape = BASES[spec["base"]]
+    shape = BASES.get(spec["base"]) or PERM_BASES[spec["base"]]
     quick = tier == "quick"
     engine = eng_mod.Engine(skip_ties=True)
     engine.reset_fn = lib.reset_state
     nprog = 0
+    if spec.get("wperm"):
+        return _run_wperm_case(spec, mg, engine, shape, res)
     if "epoch2" in spec:
         return _run_epoch2_case(spec, mg, engine, shape, res)
     if "terminal" in spec:
@@ -141,10 +166,43 @@ def run_case(spec, tier):
     return res
 
 
+def _run_wperm_case(spec, mg, engine, shape, res):
+    nprog = 0
+    lines = []
+    for chain in spec["chains"]:
+        views = []
+        prev = "b"
+        for i, op in enumerate(chain):
+            views.append("v%d = %s" % (i + 1, VIEW_OPS[op][0].format(s=prev)))
+            prev = "v%d" % (i + 1)
+        for consumers in (["r0 = (b * WP).sum()", "r1 = (%s * %s * q[1]).sum()" % (prev, prev)], ["r0 = (b * WP).sum()"], ["r0 = (b * b * q[0]).sum()"],
+                          ["r0 = (%s * q[0]).sum()" % prev, "r1 = (b * WP * q[1]).sum()"]):
+            for order in ((0, 1), (1, 0)) if len(consumers) == 2 else ((0,),):
+                for second in (False, True):
+                    nprog += 1
+                    lines = views + consumers + ["L = " + " + ".join("r%d" % j for j in order)]
+                    bad = _run(mg, engine, shape, chain, lines, second, res, "perm")
+                    if bad:
+                        rp = _replay(spec, shape, chain, lines, second, nprog, "perm")
+                        if rp:
+                            res["status"] = common.VIOLATION
+                            res["violations"].append({"signature": "view-grad:%s" % bad[:40], "replay": rp,
+                                                      "summary": "base %s with permuted axes, program `%s`%s: %s" % (shape, "; ".join(lines), " + second pass on the base" if second else "", bad)})
+                        else:
+                            res["status"] = common.INCONCLUSIVE
+                            res["notes"].append("did not reproduce: %s :: %s" % ("; ".join(lines), bad))
+    res["programs"] = nprog
+    res["sample"] = {"base": list(shape), "layout": "axes permuted (2, 0, 1)", "program": lines}
+    return res
+
+
 def _run(mg, engine, shape, chain, lines, second, res, fo=False):
     def body():
-        b0 = symarr("b", shape[::-1]).T if fo else symarr("b", shape)
+        b0 = _symbase(shape, fo)
         env = {"mg": mg, "np": np, "b": mg.Tensor(b0), "q": [symarr("q%d" % i, ()) for i in range(3)]}
+        if fo == "perm":
+            # a weight of the base's shape whose memory has yet another axis order
+            env["WP"] = np.array(symarr("WP", (shape[1], shape[0], shape[2])), dtype=object).transpose(1, 0, 2)
 
         def lin(c, j):
             if c.ndim == 1:
@@ -460,10 +518,17 @@ OPS = {
  "slice": lambda a: a[1:], "rev": lambda a: a[::-1], "step": lambda a: a[..., ::2], "int": lambda a: a[0], "newaxis": lambda a: a[..., None],
  "T": lambda a: a.T, "ravel": lambda a: a.reshape(-1), "reshape32": lambda a: a.reshape(3, 2), "swap": lambda a: np.swapaxes(a, 0, -1),
  "diag": lambda a: np.einsum("ii->i", a), "col": lambda a: a[:, 1], "squeeze": lambda a: np.squeeze(a[:1], axis=0),
- "moveaxis": lambda a: np.moveaxis(a, 0, -1), "expand": lambda a: np.expand_dims(a, 0), "ellipsis": lambda a: a[...]}
+ "moveaxis": lambda a: np.moveaxis(a, 0, -1), "expand": lambda a: np.expand_dims(a, 0), "ellipsis": lambda a: a[...],
+ "permreshape": lambda a: a.transpose(1, 2, 0).reshape(-1, 3)}
 CHAIN = %r; LINES = %r; SECOND = %r
 rng = np.random.RandomState(3)
-env = {"mg": mg, "np": np, "b": mg.Tensor((rng.rand(*%r[::-1]) + 0.5).T if %r else rng.rand(*%r) + 0.5), "q": [np.array(1.5), np.array(2.5), np.array(3.5)]}
+SHAPE = %r; FO = %r; _unused = %r
+if FO == "perm":
+    b0 = (rng.rand(SHAPE[1], SHAPE[2], SHAPE[0]) + 0.5).transpose(2, 0, 1)
+else:
+    b0 = (rng.rand(*SHAPE[::-1]) + 0.5).T if FO else rng.rand(*SHAPE) + 0.5
+env = {"mg": mg, "np": np, "b": mg.Tensor(b0), "q": [np.array(1.5), np.array(2.5), np.array(3.5)]}
+if FO == "perm": env["WP"] = (rng.rand(SHAPE[1], SHAPE[0], SHAPE[2]) + 0.5).transpose(1, 0, 2)
 def lin(c, j):
     r = np.random.RandomState(20 + j)
     if c.ndim == 1: return mg.matmul(r.rand(2, c.shape[0]) + 0.5, c)
@@ -503,7 +568,7 @@ except Exception as e:
     bad.append("raised %%s: %%s" %% (type(e).__name__, e))
 print(bad)
 print('REPRODUCED' if bad else 'NOT-REPRODUCED'); sys.exit(1 if bad else 0)
-''' % (list(chain), list(lines), bool(second), tuple(shape), bool(fo), tuple(shape))
+''' % (list(chain), list(lines), bool(second), tuple(shape), fo if fo == "perm" else bool(fo), tuple(shape))
     path = common.write_replay(PROP, gradcase._safe("%s_%d" % (spec["name"], k)), src)
     ok, out = common.run_replay(path)
     return path if ok else None
